@@ -41,9 +41,10 @@ PRE = [
     "y := bytes((1 to %d) map (%% 256))" % (2 * N),
     's := "x" $* %d' % (2 * N),
     "q := Foo(list(1 to %d), 0)" % N,
+    "t: list = list(1 to %d)" % N,          # an annotated variable: op-assignment must still empty it while the operator runs
     "b := null", "c := null",
 ]
-VARS = ["a", "b", "c", "d", "m", "q", "s", "v", "y"]
+VARS = ["a", "b", "c", "d", "m", "q", "s", "t", "v", "y"]
 
 # (source, kind, var, path-to-mutated-container)   kind: "mut" or "share"
 MENU = [
@@ -54,10 +55,11 @@ MENU = [
     ("d[5] = 7", "mut", "d", []), ("d[5] += 1", "mut", "d", []),
     ("v[3] = 7", "mut", "v", []), ("y[3] = 7", "mut", "y", []), ('s[3] = "z"', "mut", "s", []),
     ("q[fld] append= 5", "mut", "q", ["f0"]), ("q[fld][2] = 9", "mut", "q", ["f0"]), ("q[num] = 3", "mut", "q", None),
+    ("t append= 1", "mut", "t", []), ("t ++= [1]", "mut", "t", []), ("t[5] = 7", "mut", "t", []), ("t[6] += 1", "mut", "t", []),
     ("b[0] = 1", "mut", "b", []), ("b[1][1] = 1", "mut", "b", [1]), ("c[0][0] = 1", "mut", "c", [0]), ("b[fld][0] = 1", "mut", "b", ["f0"]),
     ("b = a", "share", None, None), ("b = m", "share", None, None), ("b = m[1]", "share", None, None), ("b = d", "share", None, None),
     ("b = q", "share", None, None), ("b = v", "share", None, None), ("b = y", "share", None, None), ("b = s", "share", None, None),
-    ("b = null", "share", None, None), ("c = [a, m]", "share", None, None), ("c = null", "share", None, None), ("c = m[1]", "share", None, None),
+    ("b = t", "share", None, None), ("b = null", "share", None, None), ("c = [a, m]", "share", None, None), ("c = null", "share", None, None), ("c = m[1]", "share", None, None),
 ]
 
 
@@ -219,6 +221,10 @@ LOOPS = [
     ("struct-field-index", "struct Foo (fld, num); x := Foo(list(1 to {n}), 0)", "for (i <- 0 til {k}) x[fld][i % {n}] = i"),
     ("dict-of-lists", "x := {{:[]}}; x[1] = list(1 to {n})", "for (i <- 0 til {k}) x[1] append= i"),
     ("string-index", 'x := "ab" $* ({n} // 2)', 'for (i <- 0 til {k}) x[i % {n}] = "z"'),
+    ("typed-list-append", "x: list = list(1 to {n})", "for (i <- 1 to {k}) x append= i"),
+    ("typed-list-concat", "x: list = list(1 to {n})", "for (i <- 1 to {k}) x ++= [i]"),
+    ("typed-dict-op", "x: dict = dict((0 til {n}) map (\\i -> [i, i]))", "for (i <- 0 til {k}) x[i % {n}] += 1"),
+    ("typed-param-accumulator", "x := list(1 to {n}); f := \\acc: list, j -> (acc append= j; acc)", "for (i <- 1 to {k}) x = f(consume x, i)"),
 ]
 ALIASING = [("unaliased", "", "{body}"), ("aliased-once", "; z := x", "{body}"),
             ("realiased", "; z := null", None)]
